@@ -89,6 +89,7 @@ def h(t, part):
 
     seen_connects, refused, accepted_then_ended = [], [], []
     ever_accepted = {'v': False}
+    lost = {'v': False}
     stop = {'v': False}
     if asyncio_:
         w.drv.loop.max_steps = 3000
@@ -96,13 +97,24 @@ def h(t, part):
         async def server():
             while not stop['v']:
                 await miniloop._Suspend('cond', lambda: stop['v'] or len(w.eio.out) > w.pos, None, 'server idle')
-                for fr in answer_connects():
+                frs = answer_connects()
+                for fr in frs:
                     await w.eio.recv(fr)
+                if frs and plan.get('may_lose') and w.eio.state == 'connected' and t.choice(2):
+                    # the transport is lost right behind the answers, before connect() has looked at them
+                    lost['v'] = True
+                    server_view.clear()
+                    await w.eio.lose()
         miniloop.create_task(server(), 'server')
     else:
         def hook(event, timeout):
-            for fr in answer_connects():
+            frs = answer_connects()
+            for fr in frs:
                 w.eio.recv(fr)
+            if frs and plan.get('may_lose') and w.eio.state == 'connected' and t.choice(2):
+                lost['v'] = True
+                server_view.clear()
+                w.eio.lose()
         waithook.HOOK[0] = hook
 
     def check_mirror(where):
@@ -139,6 +151,8 @@ def h(t, part):
             wait = part['wait']
             plan['answers'] = 'any'
             plan['may_end'] = wait or len(nss) == 1
+            plan['may_lose'] = wait and rnd == 0 and part.get('lose_during_connect', False)
+            lost['v'] = False
             del seen_connects[:], refused[:], ev[:], accepted_then_ended[:]
             server_view.clear()
             ever_accepted['v'] = False
@@ -158,7 +172,7 @@ def h(t, part):
             sent_for = sorted(s[0] for s in seen_connects)
             # (a server that ends the only accepted namespace makes the client close the transport: later CONNECTs cannot be
             # sent and later answers are not delivered)
-            cut_short = bool(accepted_then_ended) and w.eio.state == 'disconnected'
+            cut_short = (bool(accepted_then_ended) or lost['v']) and w.eio.state == 'disconnected'
             if sent_for != sorted(nss) and not (cut_short and len(set(sent_for)) == len(sent_for) and set(sent_for) <= set(nss)):
                 return Fail('client:connect-packets', 'requested %r, CONNECT sent for %r' % (nss, seen_connects))
             for ns, data in seen_connects:
@@ -177,8 +191,9 @@ def h(t, part):
                     return Fail('client:connect-wait-result', 'accepted %r of %r, connect() %s' % (
                         sorted(server_view), nss, 'returned' if ok else 'raised'))
                 if not ok:
-                    if c.connected or w.eio.state != 'disconnected':
-                        return Fail('client:failed-connect-leaves-connection', 'connected=%r eio=%s' % (c.connected, w.eio.state))
+                    if c.connected or w.eio.state != 'disconnected' or (lost['v'] and dict(c.namespaces)):
+                        return Fail('client:failed-connect-leaves-connection', 'connected=%r eio=%s namespaces=%r' % (
+                            c.connected, w.eio.state, dict(c.namespaces)))
                     server_view.clear()     # the transport is closed: the server forgets everything
                     continue
             conn_calls = sorted(e[1] for e in ev if e[0] == 'connect')
@@ -291,6 +306,7 @@ def h(t, part):
             if c.sid is not None:
                 return Fail('client:survivor:sid', repr(c.sid))
             plan['answers'] = 'accept'
+            plan['may_lose'] = False
             w.take()
             try:
                 w.call(c.connect('http://h', namespaces=['/', '/a'], wait=wait, wait_timeout=1))
@@ -336,6 +352,10 @@ def parts(tier):
                         n = (2 if wt else 1) if tier == 'quick' else (3 if wt else 2)
                         out.append({'async': a, 'classns': cn, 'wait': wt, 'rounds': 2 if wt else 1, 'n': n, 'first': [f0, f1]})
         # connect() without namespaces; function handlers, a class-based namespace and a catch-all registered for the same names
+        # the transport is lost behind the server's answers while connect(wait=True) has not returned yet
+        for cn in (False, True):
+            for f0 in range(5):
+                out.append({'async': a, 'classns': cn, 'wait': True, 'rounds': 2, 'n': 1, 'first': [f0], 'lose_during_connect': True})
         for wt in (True, False):
             for f1 in range(3):
                 out.append({'async': a, 'classns': 'both', 'wait': wt, 'rounds': 2 if wt else 1, 'n': 1, 'first': [5, f1]})
